@@ -533,6 +533,9 @@ package helper
 //@ func Csv.writeToWriter
 //@ requires consumed(rows) == 0
 //@ ensures[C11,C03] result == nil ==> consumed(rows) == len(rows)
+// a nil result means the records reached the underlying writer: the writer's error is asked for after the last Flush,
+// with nothing pending (asked earlier - e.g. with the Flush deferred - a failed write of the buffered records is lost)
+//@ guarantees[C11,C10,C12] "error-is-asked-after-the-final-flush" result == nil ==> csverrfinal(csvWriter)
 //@ loop#0 invariant len(record) == len(c.columns)
 //@ loop#1 invariant len(record) == len(c.columns)
 
@@ -559,7 +562,7 @@ package helper
 //@ modifies csvfs
 //@ assumes[C10] "file-holds-exactly-the-rows-written" result == nil ==> has(view(csvfs), fileName) && consumed(rows) == len(rows) && len(view(csvfs)[fileName]) == len(rows) && (forall k :: 0 <= k && k < len(rows) ==> view(csvfs)[fileName][k] == rows[k])
 //@ assumes[C10] "other-files-untouched" forall n str :: n != fileName ==> has(view(csvfs), n) == old(has(view(csvfs), n)) && sameslice(view(csvfs)[n], old(view(csvfs)[n]))
-//@ guarantees[C11] "write-replaces-previous-content" result == nil ==> ftrunc(res(os_OpenFile, 0, 0)) == 1 && fappend(res(os_OpenFile, 0, 0)) == 0
+//@ guarantees[C11,C10] "write-replaces-previous-content" result == nil ==> ftrunc(res(os_OpenFile, 0, 0)) == 1 && fappend(res(os_OpenFile, 0, 0)) == 0
 
 //@ func NewCsv
 //@ trusted reflection over the row struct (column table): outside the verifier's subset
@@ -583,7 +586,7 @@ package helper
 //@ assumes[C10] "existing-rows-kept" result == nil && old(has(view(csvfs), fileName)) ==> (forall k :: 0 <= k && k < old(len(view(csvfs)[fileName])) ==> view(csvfs)[fileName][k] == old(view(csvfs)[fileName][k]))
 //@ assumes[C10] "new-rows-in-order" result == nil && old(has(view(csvfs), fileName)) ==> (forall k :: 0 <= k && k < len(rows) ==> view(csvfs)[fileName][old(len(view(csvfs)[fileName])) + k] == rows[k])
 //@ assumes[C10] "other-files-untouched" forall n str :: n != fileName ==> has(view(csvfs), n) == old(has(view(csvfs), n)) && sameslice(view(csvfs)[n], old(view(csvfs)[n]))
-//@ guarantees[C11] "append-keeps-existing-rows" result == nil ==> fappend(res(os_OpenFile, 0, 0)) == 1 && ftrunc(res(os_OpenFile, 0, 0)) == 0
+//@ guarantees[C11,C10] "append-keeps-existing-rows" result == nil ==> fappend(res(os_OpenFile, 0, 0)) == 1 && ftrunc(res(os_OpenFile, 0, 0)) == 0
 
 
 // ---- sliding-window multiset lemmas (induction on the upper end of the window) -------------------------------------
